@@ -361,7 +361,91 @@ def check_lengths(ctx):
                 probs.append(f"decoded_len computes {fmt_n(got)[:200]}, expected 3*(n/4) + 3*(n - 4*(n/4))/4")
     ctx.add("R09.3", "C09/b64/decoded_len", not probs, "; ".join(probs), site_of(f) if f else None)
 
+def check_encoder(ctx):
+    """R09.7: shape of the encoder. write_to_fmt cuts the WHOLE input once with as_chunks::<3>, encodes every full chunk with
+    encode_3bytes in one forward loop and the remainder with encode_last, writing each result; nothing else slices or re-chunks
+    the input (a second blocking whose size is not a multiple of 3 would emit partial groups mid-string). encode_last maps a
+    remainder of 0/1/2/(>=3) bytes to 0/2/3/4 output characters of encode_3bytes applied to the zero-padded bytes."""
+    from origins import Origins
+    from interp import Interp
+    import cfg
+    cr = ctx.crates["paseto_core"]
+    f = cr.fns.get("base64::write_to_fmt")
+    probs = []
+    if f is None:
+        ctx.add("R09.7", "C09/b64/write_to_fmt", False, "anchor missing")
+    else:
+        og = Origins(f)
+        allowed = {"as_chunks", "into_iter", "next", "encode_3bytes", "encode_last", "from_utf8_unchecked", "write_str", "branch", "from_residual"}
+        calls = [(bi, b["term"]) for bi, b in enumerate(f["body"]["blocks"]) if not b.get("cleanup") and b["term"]["k"] == "call" and b["term"].get("callee") and "path" in b["term"]["callee"]]
+        extra = sorted({t["callee"]["path"] for _, t in calls if t["callee"]["path"].rsplit("::", 1)[-1] not in allowed})
+        if extra:
+            probs.append(f"calls outside the one-pass encoder shape: {extra}")
+        ac = [(bi, t) for bi, t in calls if t["callee"]["path"].endswith("::as_chunks") and "::<3>" in t["callee"].get("full", "")]
+        if len(ac) != 1:
+            probs.append(f"expected exactly one as_chunks::<3>() call, found {len(ac)}")
+        else:
+            o = repr(og.operand(ac[0][1]["args"][0], 0))
+            if "('arg', 1, 'bytes')" not in o or "call" in o:
+                probs.append("as_chunks::<3>() is not applied to the whole input: " + o[:160])
+        lps = cfg.loops(f["body"])
+        if len(lps) != 1:
+            probs.append(f"expected one loop over the chunks, found {len(lps)}")
+        inloop = set().union(*lps.values()) if lps else set()
+        e3 = [(bi, t) for bi, t in calls if t["callee"]["path"] == "base64::encode_3bytes"]
+        el = [(bi, t) for bi, t in calls if t["callee"]["path"] == "base64::encode_last"]
+        if len(e3) != 1 or e3[0][0] not in inloop:
+            probs.append("encode_3bytes is not called exactly once, inside the chunk loop")
+        elif "as_chunks" not in repr(og.operand(e3[0][1]["args"][0], 0)) or "'next'" not in repr(og.operand(e3[0][1]["args"][0], 0)).replace("Iterator::next", "'next'"):
+            probs.append("encode_3bytes does not receive the chunks of as_chunks in iteration order")
+        if len(el) != 1 or el[0][0] in inloop:
+            probs.append("encode_last is not called exactly once, after the loop")
+        else:
+            o = repr(og.operand(el[0][1]["args"][0], 0))
+            if not ("as_chunks" in o and "('field'," in o and ", 1)" in o):
+                probs.append("encode_last does not receive the remainder of as_chunks: " + o[:160])
+        ws = [(bi, t) for bi, t in calls if t["callee"]["path"].endswith("Formatter::<'_>::write_str") or t["callee"]["path"].endswith("::write_str")]
+        if len(ws) != 2 or sum(1 for bi, _ in ws if bi in inloop) != 1:
+            probs.append(f"expected one write per chunk inside the loop and one for the remainder, found {len(ws)} write_str calls")
+        ctx.add("R09.7", "C09/b64/write_to_fmt", not probs, "; ".join(probs), site_of(f))
+    g = cr.fns.get("base64::encode_last")
+    probs = []
+    if g is None:
+        ctx.add("R09.7", "C09/b64/encode_last", False, "anchor missing")
+        return
+    from norm import Norm
+    nm = Norm()
+    want = {0: 0, 1: 2, 2: 3, 3: 4}
+    seen = set()
+    for r in Interp(ctx.world, inline=False).run(g):
+        if r.kind != "return":
+            probs.append(f"non-returning path ({r.kind})")
+            continue
+        cls = None
+        for gd in r.path.guards:
+            c = nm.n(gd["cond"])
+            if isinstance(c, tuple) and c[0] == "binop" and c[2] == ("len", ("in", "bytes")) and c[3][0] == "int" and gd["value"] == 1:
+                cls = c[3][1] if c[1] == "Eq" else (3 if c[1] == "Ge" and c[3][1] == 3 else None)
+        ret = nm.n(r.ret)
+        m = re.search(r"\$dst\[0\.\.(\d+)\]", fmt_n(ret))
+        outlen = int(m.group(1)) if m else None
+        e3 = [e for e in r.path.events if e["kind"] == "call" and e["name"] == "base64::encode_3bytes"]
+        if cls is None or outlen is None or len(e3) != 1:
+            probs.append(f"path not understood (remainder class {cls}, output {fmt_n(ret)[:60]})")
+            continue
+        seen.add(cls)
+        if want.get(cls) != outlen:
+            probs.append(f"a remainder of {cls}{'+' if cls == 3 else ''} byte(s) yields {outlen} characters, expected {want.get(cls)}")
+        arg = fmt_n(nm.n(e3[0]["vals"][0]))
+        exp = {0: "(zeros 3)", 1: "array{(index $bytes 0), 0, 0}", 2: "array{(index $bytes 0), (index $bytes 1), 0}", 3: "array{(index $bytes 0), (index $bytes 1), (index $bytes 2)}"}[cls]
+        if arg != exp:
+            probs.append(f"remainder of {cls} byte(s) is encoded from {arg}, expected {exp}")
+    if seen != {0, 1, 2, 3}:
+        probs.append(f"remainder classes covered: {sorted(seen)}")
+    ctx.add("R09.7", "C09/b64/encode_last", not probs, "; ".join(sorted(set(probs))), site_of(g))
+
 def run(ctx):
+    check_encoder(ctx)
     check_decode6(ctx)
     check_encode6(ctx)
     check_3bytes(ctx)
